@@ -138,6 +138,7 @@ def _c09(scratch, tier):
             confirm("b", [{"type": "u64", "value": str(bits)}], f"{hit!r} degrees is stored as {X.ev(enc, hit)} but {hit * 1e7!r} is nearer to another multiple of 1e-7")
         else:
             res["inconclusive"].append(f"E2.b: solvers did not prove nearest-rounding (z3={rz[0]}, cvc5={rc[0]}) and no confirmed counterexample was found")
+    res["assertions"] = len(R.asserts) + len(R2.asserts) + 4
     for qq in res["queries"]:
         res["samples"].append({"obligation": qq["harness"], "bounds": qq.get("bounds"), "verdict": qq.get("status"), "z3": qq.get("z3"), "cvc5": qq.get("cvc5")})
     return res
